@@ -8,8 +8,10 @@ package main
 import (
 	"flag"
 	"fmt"
+	"go/ast"
 	"go/types"
 	"os"
+	"regexp"
 	"path/filepath"
 	"sort"
 	"strings"
@@ -24,6 +26,11 @@ func isPtrLike(t types.Type) bool {
 		return true
 	}
 	return false
+}
+
+func isStringType(t types.Type) bool {
+	b, ok := t.Underlying().(*types.Basic)
+	return ok && b.Info()&types.IsString != 0
 }
 
 func cmdInfer(args []string) {
@@ -52,10 +59,15 @@ func cmdInfer(args []string) {
 	for _, f := range e.order {
 		name := e.fname(f)
 		for _, p := range f.Params {
-			if p.Name() == "" || p.Name() == "_" || !isPtrLike(p.Type()) {
+			if p.Name() == "" || p.Name() == "_" {
 				continue
 			}
 			txt := p.Name() + " != nil"
+			if isStringType(p.Type()) && len(cs.FoldedKeys) > 0 {
+				txt = "folded(" + p.Name() + ")"
+			} else if !isPtrLike(p.Type()) {
+				continue
+			}
 			ex, err := parseCExpr(txt)
 			if err != nil {
 				continue
@@ -84,6 +96,22 @@ func cmdInfer(args []string) {
 		name := e.fname(f)
 		res := f.Signature.Results()
 		for i := 0; i < res.Len(); i++ {
+			if isStringType(res.At(i).Type()) && len(cs.FoldedKeys) > 0 {
+				txt := "folded(result)"
+				if res.Len() > 1 {
+					txt = fmt.Sprintf("folded(result%d)", i)
+				}
+				ex, _ := parseCExpr(txt)
+				con := cs.Funcs[name]
+				if con == nil {
+					con = &Contract{Fn: name}
+					cs.Funcs[name] = con
+				}
+				cl := &Clause{Kind: "ensures", Expr: ex, Text: txt, Auto: true}
+				con.Ensures = append(con.Ensures, cl)
+				enss = append(enss, &reqCand{name, txt, cl})
+				continue
+			}
 			if !isPtrLike(res.At(i).Type()) {
 				continue
 			}
@@ -117,7 +145,119 @@ func cmdInfer(args []string) {
 			enss = append(enss, &reqCand{name, txt, cl})
 		}
 	}
+	// user-declared candidate postconditions (auto_ensures <regexp>: <expr>)
+	for _, ae := range cs.AutoEnsures {
+		re, err := regexp.Compile(ae[0])
+		if err != nil {
+			fmt.Fprintf(os.Stderr, "bad auto_ensures regexp %q\n", ae[0])
+			continue
+		}
+		for _, f := range e.order {
+			name := e.fname(f)
+			if !re.MatchString(name) {
+				continue
+			}
+			ex, _ := parseCExpr(ae[1])
+			okIds := true
+			for _, id := range freeIds(ex) {
+				found := false
+				for _, p := range f.Params {
+					if p.Name() == id {
+						found = true
+					}
+				}
+				if !found {
+					okIds = false
+				}
+			}
+			if !okIds {
+				continue
+			}
+			con := cs.Funcs[name]
+			if con == nil {
+				con = &Contract{Fn: name}
+				cs.Funcs[name] = con
+			}
+			dup := false
+			for _, r := range con.Ensures {
+				if r.Text == ae[1] {
+					dup = true
+				}
+			}
+			if dup {
+				continue
+			}
+			cl := &Clause{Kind: "ensures", Expr: ex, Text: ae[1], Auto: true}
+			con.Ensures = append(con.Ensures, cl)
+			enss = append(enss, &reqCand{name, ae[1], cl})
+		}
+	}
+	// candidate loop invariants (auto_invariant <regexp>: <expr>) for every loop of the matching functions
+	type invCand struct {
+		fn     string
+		ls     *LoopSpec
+		clause *Clause
+	}
+	var invs []*invCand
+	for _, ai := range cs.AutoInvs {
+		re, err := regexp.Compile(ai[0])
+		if err != nil {
+			continue
+		}
+		for _, f := range e.order {
+			name := e.fname(f)
+			if !re.MatchString(name) || f.Syntax() == nil {
+				continue
+			}
+			ex, _ := parseCExpr(ai[1])
+			okIds := true
+			for _, id := range freeIds(ex) {
+				found := false
+				for _, p := range f.Params {
+					if p.Name() == id {
+						found = true
+					}
+				}
+				if !found {
+					okIds = false
+				}
+			}
+			if !okIds {
+				continue
+			}
+			for _, lk := range loopKeys(f) {
+				con := cs.Funcs[name]
+				if con == nil {
+					con = &Contract{Fn: name}
+					cs.Funcs[name] = con
+				}
+				var ls *LoopSpec
+				for _, x := range con.Loops {
+					if x.Key == lk.key && (x.Ordinal == lk.ord || (x.Ordinal <= 1 && lk.ord <= 1)) {
+						ls = x
+					}
+				}
+				if ls == nil {
+					ls = &LoopSpec{Key: lk.key, Ordinal: lk.ord}
+					con.Loops = append(con.Loops, ls)
+				}
+				dup := false
+				for _, iv := range ls.Invariants {
+					if iv.Text == ai[1] {
+						dup = true
+					}
+				}
+				if dup {
+					continue
+				}
+				cl := &Clause{Kind: "invariant", Expr: ex, Text: ai[1], Auto: true}
+				ls.Invariants = append(ls.Invariants, cl)
+				invs = append(invs, &invCand{name, ls, cl})
+			}
+		}
+	}
 	fieldC, elemC, boxC := map[string]bool{}, map[string]bool{}, map[string]bool{}
+	foldC := map[string]bool{}
 	seenT := map[string]bool{}
 	var addType func(t types.Type)
 	addType = func(t types.Type) {
@@ -146,6 +286,9 @@ func cmdInfer(args []string) {
 					if isPtrLike(f.Type()) {
 						fieldC[k+"."+f.Name()] = true
 					}
+					if isStringType(f.Type()) && len(cs.FoldedKeys) > 0 {
+						foldC[k+"."+f.Name()] = true
+					}
 					addType(f.Type())
 				}
 			}
@@ -168,11 +311,60 @@ func cmdInfer(args []string) {
 			}
 		}
 	}
+	// soundness filters: a field fact is justified only when every writer is checked by govc.
+	//  - structs decoded by reflection (yaml/json struct tags) are excluded;
+	//  - nullability facts need an allocation site of the struct in the package (the nonnil-init check);
+	//  - folded facts need at least one store in the package.
+	allocd, stored, tagged := map[string]bool{}, map[string]bool{}, map[string]bool{}
+	for _, mem := range e.pkg.Members {
+		if tn, ok := mem.(*ssa.Type); ok {
+			if st, ok := tn.Type().Underlying().(*types.Struct); ok {
+				for i := 0; i < st.NumFields(); i++ {
+					if st.Tag(i) != "" {
+						tagged[e.typeName(tn.Type())] = true
+					}
+				}
+			}
+		}
+	}
+	for _, f := range e.order {
+		for _, b := range f.Blocks {
+			for _, ins := range b.Instrs {
+				switch x := ins.(type) {
+				case *ssa.Alloc:
+					allocd[e.typeName(deref(x.Type()))] = true
+				case *ssa.Store:
+					if fa, ok := x.Addr.(*ssa.FieldAddr); ok {
+						st := deref(fa.X.Type())
+						stored[e.typeName(st)+"."+st.Underlying().(*types.Struct).Field(fa.Field).Name()] = true
+					}
+				}
+			}
+		}
+	}
+	typeOfKey := func(k string) string { return k[:strings.LastIndex(k, ".")] }
+	for k := range fieldC {
+		if tagged[typeOfKey(k)] || !allocd[typeOfKey(k)] {
+			delete(fieldC, k)
+		}
+	}
+	for k := range foldC {
+		if tagged[typeOfKey(k)] || !stored[k] {
+			delete(foldC, k)
+		}
+	}
 	for k := range fieldC {
 		if !cs.NonNilField[k] {
 			cs.NonNilField[k] = true
 		} else {
 			delete(fieldC, k)
+		}
+	}
+	for k := range foldC {
+		if !cs.FoldedField[k] {
+			cs.FoldedField[k] = true
+		} else {
+			delete(foldC, k)
 		}
 	}
 	for k := range elemC {
@@ -193,6 +385,10 @@ func cmdInfer(args []string) {
 
 	sel := func(ob *Obligation) bool {
 		switch ob.Kind {
+		case "folded-store":
+			return foldC[ob.Detail]
+		case "inv-entry", "inv-preserved":
+			return true
 		case "requires", "ensures", "nonnil-store", "nonnil-append", "nonnil-elems", "nonnil-init", "typed-nil":
 			return true
 		}
@@ -252,6 +448,25 @@ func cmdInfer(args []string) {
 							break
 						}
 					}
+				case "inv-entry", "inv-preserved":
+					// text: "loop <key>: <invariant>"
+					for _, ic := range invs {
+						if ic.fn != ob.Fn || ob.Text != "loop "+ic.ls.Key+": "+ic.clause.Text {
+							continue
+						}
+						for j, iv := range ic.ls.Invariants {
+							if iv == ic.clause {
+								ic.ls.Invariants = append(ic.ls.Invariants[:j], ic.ls.Invariants[j+1:]...)
+								removed++
+								break
+							}
+						}
+					}
+				case "folded-store":
+					if foldC[ob.Detail] && cs.FoldedField[ob.Detail] {
+						delete(cs.FoldedField, ob.Detail)
+						removed++
+					}
 				case "nonnil-init":
 					k := ob.Text[:strings.Index(ob.Text, " of ")]
 					if fieldC[k] && cs.NonNilField[k] {
@@ -288,21 +503,55 @@ func cmdInfer(args []string) {
 	// pruning ---------------------------------------------------------------------------------
 	// An inferred contract that no proof needs only restricts future code: drop it.
 	pstart := time.Now()
-	solveOne := func(f *ssa.Function) map[string]bool {
-		vc := newVC(e, f, nil)
-		func() {
-			defer func() {
-				if r := recover(); r != nil {
-					vc.obls, vc.items = nil, nil
+	// baseline: everything that is discharged with all surviving candidates in place
+	baseD := map[string]bool{}
+	{
+		vcs := generateAll(e)
+		solveAllSel(vcs, nil, *tmo)
+		for _, vc := range vcs {
+			for _, ob := range vc.obls {
+				if ob.Result == "unsat" {
+					baseD[e.fname(vc.fn)+"|"+ob.Name] = true
 				}
+			}
+		}
+	}
+	fmt.Printf("baseline for pruning: %d discharged obligations (%.1fs)\n", len(baseD), time.Since(pstart).Seconds())
+	// solveFns re-verifies, for the given functions, the obligations of the baseline (in parallel)
+	solveFns := func(fs []*ssa.Function) map[string]bool {
+		var vcs []*VC
+		for _, f := range fs {
+			vc := newVC(e, f, nil)
+			func() {
+				defer func() {
+					if r := recover(); r != nil {
+						vc.obls, vc.items = nil, nil
+					}
+				}()
+				vc.Generate()
 			}()
-			vc.Generate()
-		}()
-		vc.SolveSel(nil, *tmo, false)
+			vcs = append(vcs, vc)
+		}
+		sel := func(ob *Obligation) bool { return baseD[ob.Fn+"|"+ob.Name] }
+		solveAllSel(vcs, sel, 1500)
 		d := map[string]bool{}
-		for _, ob := range vc.obls {
-			if ob.Result == "unsat" {
-				d[ob.Name] = true
+		for _, vc := range vcs {
+			for _, ob := range vc.obls {
+				if ob.Result == "unsat" {
+					d[e.fname(vc.fn)+"|"+ob.Name] = true
+				}
+			}
+		}
+		return d
+	}
+	baseOf := func(fs []*ssa.Function) map[string]bool {
+		d := map[string]bool{}
+		for _, f := range fs {
+			pre := e.fname(f) + "|"
+			for k := range baseD {
+				if strings.HasPrefix(k, pre) {
+					d[k] = true
+				}
 			}
 		}
 		return d
@@ -358,19 +607,9 @@ func cmdInfer(args []string) {
 		if len(cl) > 12 {
 			continue // widely used helper: keep
 		}
-		base := map[string]bool{}
-		for _, g := range cl {
-			for k := range solveOne(g) {
-				base[e.fname(g)+"|"+k] = true
-			}
-		}
+		base := baseOf(cl)
 		con.Ensures = append(append([]*Clause{}, con.Ensures[:idx]...), con.Ensures[idx+1:]...)
-		now := map[string]bool{}
-		for _, g := range cl {
-			for k := range solveOne(g) {
-				now[e.fname(g)+"|"+k] = true
-			}
-		}
+		now := solveFns(cl)
 		if subset(base, now) {
 			prunedE++
 		} else {
@@ -396,7 +635,7 @@ func cmdInfer(args []string) {
 		if len(autos) == 0 {
 			continue
 		}
-		base := solveOne(f)
+		base := baseOf([]*ssa.Function{f})
 		for _, c := range autos {
 			var rest []*Clause
 			for _, x := range con.Requires {
@@ -406,11 +645,10 @@ func cmdInfer(args []string) {
 			}
 			saved := con.Requires
 			con.Requires = rest
-			now := solveOne(f)
+			now := solveFns([]*ssa.Function{f})
 			// obligations on the removed clause itself do not exist in callers any more; compare body only
 			if subset(base, now) {
 				prunedR++
-				base = now
 			} else {
 				con.Requires = saved
 			}
@@ -430,6 +668,16 @@ func cmdInfer(args []string) {
 	sort.Strings(ks)
 	for _, k := range ks {
 		fmt.Fprintf(&b, "//@ nonnil %s\n", k)
+	}
+	ks = nil
+	for k := range foldC {
+		if cs.FoldedField[k] {
+			ks = append(ks, k)
+		}
+	}
+	sort.Strings(ks)
+	for _, k := range ks {
+		fmt.Fprintf(&b, "//@ folded %s\n", k)
 	}
 	ks = nil
 	for k := range elemC {
@@ -469,6 +717,26 @@ func cmdInfer(args []string) {
 			}
 		}
 	}
+	loopLines := map[string][]string{}
+	for _, ic := range invs {
+		alive := false
+		for _, iv := range ic.ls.Invariants {
+			if iv == ic.clause {
+				alive = true
+			}
+		}
+		if !alive {
+			continue
+		}
+		hdr := fmt.Sprintf("loop %q", ic.ls.Key)
+		if ic.ls.Ordinal > 1 {
+			hdr += fmt.Sprintf(" #%d", ic.ls.Ordinal)
+		}
+		loopLines[ic.fn] = append(loopLines[ic.fn], hdr+":", "  invariant "+ic.clause.Text)
+		if _, ok := byFn[ic.fn]; !ok {
+			byFn[ic.fn] = nil
+		}
+	}
 	var fns []string
 	for f := range byFn {
 		fns = append(fns, f)
@@ -481,10 +749,89 @@ func cmdInfer(args []string) {
 			fmt.Fprintf(&b, "//@   %s\n", t)
 			nreq++
 		}
+		for _, t := range loopLines[f] {
+			fmt.Fprintf(&b, "//@   %s\n", t)
+		}
 	}
 	if err := os.WriteFile(*out, []byte(b.String()), 0o644); err != nil {
 		fmt.Fprintln(os.Stderr, err)
 		os.Exit(2)
 	}
 	fmt.Printf("wrote %s: %d requires on %d functions\n", *out, nreq, len(fns))
+}
+
+// freeIds returns the identifiers of a contract expression that must be bound by the function
+// (everything except builtins, result names and bound variables).
+func freeIds(e *CExpr) []string {
+	builtin := map[string]bool{"len": true, "cap": true, "old": true, "folded": true, "nlfree": true, "lower": true, "fresh": true,
+		"shared": true, "istype": true, "dyn": true, "visited": true, "result": true, "result0": true, "result1": true, "result2": true}
+	var out []string
+	var walk func(x *CExpr, bound map[string]bool)
+	walk = func(x *CExpr, bound map[string]bool) {
+		switch x.Op {
+		case "id":
+			if !builtin[x.Name] && !bound[x.Name] {
+				out = append(out, x.Name)
+			}
+		case "forall", "exists":
+			nb := map[string]bool{}
+			for k := range bound {
+				nb[k] = true
+			}
+			for _, v := range x.Vars {
+				nb[v.Name] = true
+			}
+			for _, a := range x.Args {
+				walk(a, nb)
+			}
+			return
+		case "call":
+			for _, a := range x.Args[1:] {
+				walk(a, bound)
+			}
+			if x.Args[0].Op != "id" {
+				walk(x.Args[0], bound)
+			}
+			return
+		}
+		for _, a := range x.Args {
+			walk(a, bound)
+		}
+	}
+	walk(e, map[string]bool{})
+	return out
+}
+
+type loopKey struct {
+	key string
+	ord int
+}
+
+// loopKeys lists the source loops of a function with the keys used in contract files.
+func loopKeys(f *ssa.Function) []loopKey {
+	var out []loopKey
+	cnt := map[string]int{}
+	syn := f.Syntax()
+	ast.Inspect(syn, func(n ast.Node) bool {
+		t := ""
+		switch l := n.(type) {
+		case *ast.ForStmt:
+			t = "for"
+			if l.Cond != nil {
+				t = types.ExprString(l.Cond)
+			}
+		case *ast.RangeStmt:
+			t = "range " + types.ExprString(l.X)
+		case *ast.FuncLit:
+			if n != syn {
+				return false
+			}
+		}
+		if t != "" {
+			cnt[t]++
+			out = append(out, loopKey{t, cnt[t]})
+		}
+		return true
+	})
+	return out
 }
